@@ -96,6 +96,33 @@ func init() {
 	for _, n := range []string{"Debug", "Info", "Warn", "Error"} {
 		stdModels["(*log/slog.Logger)."+n] = func(ec *evalCtx, call *ast.CallExpr, recv Value, args []Value) Value { return nil }
 	}
+	stdModels["(*regexp.Regexp).MatchString"] = func(ec *evalCtx, call *ast.CallExpr, recv Value, args []Value) Value {
+		sel := call.Fun.(*ast.SelectorExpr)
+		var obj types.Object
+		switch x := ast.Unparen(sel.X).(type) {
+		case *ast.Ident:
+			obj = ec.info.Uses[x]
+		case *ast.SelectorExpr:
+			obj = ec.info.Uses[x.Sel]
+		}
+		v, ok := obj.(*types.Var)
+		if !ok || v.Pkg() == nil || v.Parent() != v.Pkg().Scope() {
+			panic(unsupported("MatchString on a regexp that is not a package-level variable"))
+		}
+		pat, ok := ec.e().regexpLiteral(v)
+		if !ok {
+			panic(unsupported("regexp %s is not MustCompile(<literal>) or is reassigned", v.Name()))
+		}
+		name := "RE_" + v.Name()
+		if !ec.e().langs.Has(name) {
+			re, err := FromGoRegexp(pat)
+			if err != nil {
+				panic(unsupported("regexp %s: %v", v.Name(), err))
+			}
+			ec.e().langs.Define(name, re, "(code) Go regexp "+strconvQuote(pat))
+		}
+		return ec.e().inL(scalar(args[0]), name)
+	}
 	stdModels["(*sync.Mutex).Lock"] = lockModel(true)
 	stdModels["(*sync.Mutex).Unlock"] = lockModel(false)
 	stdModels["(*sync.RWMutex).Lock"] = lockModel(true)
